@@ -3,8 +3,12 @@
 Tables are extracted from the sources on every run (tools/gen_c15.py) into lean-l4/XrlL4/Gen/C15.lean; the theorems of
 lean-l4/XrlL4/Props/C15.lean are decided by the kernel; the generic lookup model (XrlL4/Catalogue.lean, executable
 CatDriver.lean) is compared with the real library (harness/c15_drv.c, ASan+UBSan build of the working tree) on every name,
-every index in [-3, n+3], every index macro, the list functions, malformed names, and deep-copy histories."""
-import os, sys, re, json, time, subprocess, itertools
+every index in [-3, n+3], every index macro, the list functions, malformed names (systematic near-misses of every
+catalogue name, NULL names, random ones), and deep-copy histories (every index of every catalogue x all 24 free orders).
+Two checks beside the theorems: the compiled crystal table against data/Crystals.dat through an independent parser
+(crystals_vs_data_file) and Z_xray against the main decay mode of each radionuclide (daughter_elements)."""
+import os, sys, re, json, time, subprocess, itertools, math, struct
+from decimal import Decimal
 from fractions import Fraction as F
 from vlib import core, l4, cbuild
 from vlib.cbuild import REPO, VERIF, BuildError
@@ -100,6 +104,162 @@ def entry_level(js):
     return bad
 
 
+def parse_crystals_dat(path):
+    """independent reader of data/Crystals.dat (nothing of pr_data / Crystal_ReadFile is used): `#S <num> <name>` opens an entry,
+    `#UCELL a b c alpha beta gamma` gives the cell, the atom lines `Z fraction x y z [Biso]` follow `#L` up to the next line that
+    starts with '#'.  -> (entries, anomalies); every token is kept as the text of the file"""
+    ents = []; odd = []; cur = None; in_atoms = False
+    with open(path, errors='replace') as f:
+        for ln, l in enumerate(f, 1):
+            if l.startswith('#S'):
+                t = l.split()
+                if len(t) < 3: odd.append((None, 'line %d: malformed #S line %r' % (ln, l.strip()))); cur = None; continue
+                cur = dict(name=t[2], cell=None, atoms=[], line=ln); ents.append(cur); in_atoms = False
+            elif cur is None: continue
+            elif l.startswith('#UCELL'):
+                if cur['cell'] is not None: odd.append((cur['name'], 'line %d: second #UCELL line' % ln))
+                cur['cell'] = l.split()[1:7]
+            elif l.startswith('#L'): in_atoms = True
+            elif l.startswith('#'): in_atoms = False
+            elif in_atoms:
+                t = l.split()
+                if len(t) < 5 or not re.fullmatch(r'[1-9]\d*', t[0]): odd.append((cur['name'], 'line %d: atom line not understood: %r' % (ln, l.strip())))
+                else: cur['atoms'].append(t[:5])
+    return ents, odd
+
+
+def f32(x): return struct.unpack('f', struct.pack('f', float(x)))[0]
+
+
+def crystals_vs_data_file(js, path):
+    """the crystal table compiled into the library (text of xrayglob_inline.c, js['crystals_full']) against data/Crystals.dat.
+    Tightest comparison that holds on the shipped data: every table literal is the file value printed with 6 decimals
+    ('%f' of the correctly rounded double, which is what pr_data does), hence |table - file| <= 5e-7; float32 equality does NOT hold
+    for values the file gives with more than 6 decimals.  -> (violations [(theorem, key, what)], statistics)"""
+    TH = 'crystal_catalogue_matches_data_file'
+    bad = []; st = dict(file='data/Crystals.dat', entries_in_file=0, entries_in_table=len(js['crystals_full']), entries_compared=0, atoms_compared=0, values_compared=0,
+                        max_abs_deviation=0.0, max_rel_volume_deviation=0.0, float32_equal=0, float32_unequal=[],
+                        comparison="table literal == '%f' % float(file token) (6 decimals, implies |table - file| <= 5e-7, also asserted in exact decimal arithmetic); "
+                                   "volume literal within 1e-6 relative of a*b*c*sqrt(1-cos^2(alpha)-cos^2(beta)-cos^2(gamma)+2cos(alpha)cos(beta)cos(gamma)) of the file's cell; "
+                                   "same names (table = strcmp-sorted file names), same atom count and atom order, same Z")
+    ents, odd = parse_crystals_dat(path)
+    st['entries_in_file'] = len(ents)
+    key = lambda n: 'crystal_name\t%s' % n
+    for n, what in odd: bad.append((TH, key(n) if n else 'crystal_list', 'data/Crystals.dat ' + what))
+    tab = {c['name']: c for c in js['crystals_full']}
+    fnames = [e['name'] for e in ents]
+    for n in sorted({n for n in fnames if fnames.count(n) > 1}): bad.append((TH, key(n), '%s is defined %d times in data/Crystals.dat' % (n, fnames.count(n))))
+    for n in sorted(set(tab) - {n[:20] for n in fnames}): bad.append((TH, key(n), '%s is in the compiled crystal table but not in data/Crystals.dat' % n))
+    if [c['name'] for c in js['crystals_full']] != sorted(set(n[:20] for n in fnames)) and not bad:
+        bad.append((TH, 'crystal_list', 'the compiled table is not the strcmp-sorted list of the names of data/Crystals.dat'))
+    dmax = Decimal(0)
+    for e in ents:
+        n = e['name'][:20]          # the reader keeps 20 characters of a name
+        t = tab.get(n); w = []
+        if t is None: bad.append((TH, key(n), '%s (data/Crystals.dat line %d) is missing from the compiled crystal table' % (e['name'], e['line']))); continue
+        if e['cell'] is None or len(e['cell']) != 6: bad.append((TH, key(n), '%s: no complete #UCELL line in data/Crystals.dat' % n)); continue
+        st['entries_compared'] += 1
+        pairs = [('cell.' + k, x, y) for k, x, y in zip(('a', 'b', 'c', 'alpha', 'beta', 'gamma'), e['cell'], t['cell'])]
+        if len(e['atoms']) != t['n_atom'] or len(e['atoms']) != len(t['atoms']):
+            w.append('%d atom lines in the file, n_atom %d and %d atoms in the table' % (len(e['atoms']), t['n_atom'], len(t['atoms'])))
+        for i, (a, b) in enumerate(zip(e['atoms'], t['atoms'])):
+            st['atoms_compared'] += 1
+            if int(a[0]) != int(b[0]): w.append('atom %d: Z %s in the file, %s in the table' % (i, a[0], b[0]))
+            pairs += [('atom[%d].%s' % (i, k), x, y) for k, x, y in zip(('fraction', 'x', 'y', 'z'), a[1:5], b[1:5])]
+        for what, x, y in pairs:
+            try: fx = float(x); dx = Decimal(x)
+            except Exception: w.append('%s: %r in the file is not a number' % (what, x)); continue
+            st['values_compared'] += 1
+            d = abs(dx - Decimal(y)); dmax = max(dmax, d)
+            if '%f' % fx != y or d > Decimal('0.0000005'): w.append('%s: file %s, table %sf (expected %ff)' % (what, x, y, fx))
+            if f32(x) == f32(y): st['float32_equal'] += 1
+            else: st['float32_unequal'].append('%s %s: file %s -> float32 %.9g, table %sf -> %.9g' % (n, what, x, f32(x), y, f32(y)))
+        try:
+            a, b, c, al, be, ga = [float(v) for v in e['cell']]
+            ca, cb, cg = [math.cos(math.radians(v)) for v in (al, be, ga)]
+            vol = a * b * c * math.sqrt(1 - ca * ca - cb * cb - cg * cg + 2 * ca * cb * cg)
+            rel = abs(vol - float(t['volume'])) / abs(vol)
+            st['max_rel_volume_deviation'] = max(st['max_rel_volume_deviation'], rel)
+            if not rel <= 1e-6: w.append('volume %sf in the table, unit-cell formula on the file\'s cell gives %.9g' % (t['volume'], vol))
+        except (ValueError, ZeroDivisionError) as ex: w.append('unit-cell volume of the file\'s cell cannot be computed (%s)' % ex)
+        for x in w[:8]: bad.append((TH, key(n), '%s: %s' % (n, x)))
+    st['max_abs_deviation'] = float(dmax); st['float32_unequal'] = st['float32_unequal'][:20]
+    return bad, st
+
+
+# main decay mode per nuclide name (standard nuclear data — ENSDF / Table of Radioactive Isotopes —, main decay mode) and the change of Z it causes:
+# electron capture / beta+ : Z-1,  beta- : Z+1,  alpha : Z-2,  isomeric transition / internal conversion : Z
+DECAY_DZ = dict(EC=-1, BETA_PLUS=-1, BETA_MINUS=+1, ALPHA=-2, IT=0)
+MAIN_DECAY = {'55Fe': 'EC', '57Co': 'EC', '109Cd': 'EC', '125I': 'EC', '137Cs': 'BETA_MINUS', '133Ba': 'EC', '153Gd': 'EC',
+              '238Pu': 'ALPHA', '241Am': 'ALPHA', '244Cm': 'ALPHA'}
+
+
+def daughter_elements(js):
+    """clause 10, "X-ray lines of the DAUGHTER element": Z_xray against decay physics -> (violations, table, disagreements)"""
+    sym = {z: s for z, s in js['mendel']}
+    bad = []; rows = []; dis = []
+    for i, e in enumerate(js['nuclides']):
+        mode = MAIN_DECAY.get(e['name']); dz = e['Z_xray'] - e['Z']
+        row = dict(idx=i, name=e['name'], Z=e['Z'], A=e['A'], Z_xray=e['Z_xray'], dZ=dz, element_xray=sym.get(e['Z_xray'], '?'), mode=mode or 'not tabulated',
+                   expected_Z_xray=(e['Z'] + DECAY_DZ[mode]) if mode else None)
+        rows.append(row)
+        if mode is not None and dz != DECAY_DZ[mode]:
+            what = '%s (Z=%d) decays by %s to Z=%d (%s) but Z_xray is %d (%s)' % (e['name'], e['Z'], mode, e['Z'] + DECAY_DZ[mode], sym.get(e['Z'] + DECAY_DZ[mode], '?'), e['Z_xray'], sym.get(e['Z_xray'], '?'))
+        elif mode is None and abs(dz) > 2:
+            what = '%s (Z=%d, no decay mode tabulated in props/c15.py): Z_xray %d is not within 2 of Z' % (e['name'], e['Z'], e['Z_xray'])
+        else: continue
+        dis.append(what); bad.append(('nuclide_daughter_element', 'nuclide_idx\t%d' % i, what))
+    return bad, rows, dis
+
+
+def systematic_mutations(name):
+    """near misses of one catalogue name: truncated at either end, one character appended / prepended, one character replaced at the
+    first, middle and last position (by 'x' and by the next character code: the closest strcmp neighbours), case variants, doubled"""
+    out = [name[:-1], name[1:], name + 'x', name + ' ', ' ' + name, name.swapcase(), name.lower(), name.upper(), name + name]
+    for i in sorted({0, len(name) // 2, len(name) - 1}):
+        if not 0 <= i < len(name): continue
+        ch = name[i]
+        for r in ('y' if ch == 'x' else 'x', chr(ord(ch) + 1) if 32 <= ord(ch) < 126 else '!'):
+            out.append(name[:i] + r + name[i + 1:])
+    return out
+
+
+NULL_TOKEN = '%NULL%'       # harness/c15_drv.c passes a NULL pointer, lean-l4/CatDriver.lean answers err
+
+
+COPY_MODEL = os.path.join(l4.L4_DIR, 'XrlL4', 'CopyModel.lean')
+
+def copy_level(cj):
+    """the clause `every lookup returns an independent deep copy`, member by member, on what tools/c15_copy.py transliterated:
+    names the member and the function when `nist_lookups_copy_every_member` / `nuclide_lookups_copy_every_member` fail"""
+    out = []
+    for tag, r in cj.items():
+        fields = dict(r['fields'])
+        for which, fn in (('byIndex', r['functions'][0]), ('byName', r['functions'][1])):
+            st = [x.split(' ', 1) for x in r[which]]
+            if not st or st[0][0] != 'allocSelf': out.append('%s does not start by allocating the struct it returns' % fn); continue
+            for k, rest in st[1:]:
+                if k == 'other': out.append('%s: statement not understood on the success path: %s' % (fn, rest))
+            for f, ty in r['fields']:
+                mine = [(k, json.loads('[' + ','.join(rest.split(' ')) + ']')) for k, rest in st[1:] if k != 'other' and json.loads(rest.split(' ')[0]) == f]
+                kinds = [k for k, _ in mine]
+                if not mine: out.append('%s never sets member %s of struct %s' % (fn, f, r['struct']))
+                elif ty in ('str',) or ty.startswith('arr'):
+                    if kinds == ['assign']: out.append('%s assigns the POINTER %s of the static entry to the copy (key->%s = src.%s): the copy shares memory with the catalogue' % (fn, f, f, mine[0][1][1]))
+                    elif ty == 'str' and kinds != ['strdup']: out.append('%s: member %s is not duplicated with xrl_strdup (%s)' % (fn, f, kinds))
+                    elif ty.startswith('arr'):
+                        if kinds != ['malloc', 'memcpy']: out.append('%s: member %s is not allocated and copied (%s)' % (fn, f, kinds))
+                        else:
+                            (_, a), (_, b) = mine
+                            el = ty[4:]
+                            if a[1] != el or b[2] != el or a[2] != b[3] or b[1] != f or fields.get(a[2]) != 'int':
+                                out.append('%s: member %s (%s*) is allocated as %s[%s] and copied as %s[%s] from %s' % (fn, f, el, a[1], a[2], b[2], b[3], b[1]))
+                elif kinds != ['assign'] or mine[0][1][1] != f: out.append('%s: scalar member %s is not assigned from the same member (%s)' % (fn, f, mine))
+        want = ['field ' + json.dumps(f) for f, ty in r['fields'] if ty == 'str' or ty.startswith('arr')] + ['self']
+        if r['free'] != want: out.append('%s releases %s, the pointer members are %s' % (r['functions'][2], r['free'], want))
+    return out
+
+
 def mutate_name(rng, name):
     k = rng.randrange(8)
     if k == 0: return name.swapcase()
@@ -113,8 +273,9 @@ def mutate_name(rng, name):
     return ''.join(rng.choice('abcXYZ019 ,-/()') for _ in range(rng.randrange(1, 40)))
 
 
-def gen_lines(ctx, js, thorough):
+def gen_lines(ctx, js, thorough, stats=None):
     rng = ctx.rng; L = []
+    st = stats if stats is not None else {}
     mx = len(js['mendel'])
     L += ['mendel_sym\t%d' % z for z in range(-3, mx + 4)]
     L += ['mendel_z\t%s' % s for _, s in js['mendel']]
@@ -123,6 +284,16 @@ def gen_lines(ctx, js, thorough):
             ('nuclide', [e['name'] for e in js['nuclides']], [v for _, v in js['nuclide_macros']]),
             ('crystal', [c['name'] for c in js['crystals']], [])]
     perms = [''.join(p) for p in itertools.permutations('0123')]
+    def unknown_names(cmd, names):
+        """SYSTEMATIC: every near miss of every name that is not itself a name of the catalogue (those are asked above), the empty
+        string and the NULL pointer; each must be answered with an error"""
+        known = set(names); seen = set(); out = []
+        for m in [''] + [m for x in names for m in systematic_mutations(x)] + [NULL_TOKEN]:
+            if m in known or m in seen or '\t' in m or '\n' in m or '\r' in m: continue
+            seen.add(m); out.append('%s\t%s' % (cmd, m))
+        st['unknown_' + cmd] = len(out)
+        return out
+    L += unknown_names('mendel_z', [s for _, s in js['mendel']])
     for kind, names, macros in cats:
         n = len(names)
         L += ['%s_name\t%s' % (kind, x) for x in names]
@@ -131,16 +302,18 @@ def gen_lines(ctx, js, thorough):
             L += ['%s_idx\t%d' % (kind, v) for v in macros]
             L += ['%s_idx\t%d' % (kind, v) for v in (-2147483648, 2147483647, 1000000)]
         L.append('%s_list' % kind)
+        L += unknown_names('%s_name' % kind, names)
         k = 400 if thorough else 60
-        for _ in range(k):
+        for _ in range(k):          # seeded: random mutations and random strings on top of the systematic ones
             m = mutate_name(rng, rng.choice(names))
             if '\t' in m or '\n' in m: continue
             L.append('%s_name\t%s' % (kind, m))
-        idxs = list(range(n)) if thorough else sorted(rng.sample(range(n), min(n, 10)))
-        for i in idxs + [-1, n]:
-            for p in (perms if thorough or i in idxs[:4] else rng.sample(perms, 6)):
-                L.append('copy_%s\t%d\t%s' % (kind, i, p))
+        # deep-copy histories: EVERY index of the catalogue (and -1, n) x all 24 orders of freeing the four copies, in both tiers
+        for i in list(range(n)) + [-1, n]:
+            for p in perms: L.append('copy_%s\t%d\t%s' % (kind, i, p))
+        st['copy_' + kind] = (n + 2) * len(perms)
         for p in ('01', '10'): L.append('copy_list\t%s\t%s' % (kind, p))
+    L = list(dict.fromkeys(L))        # duplicates (a random mutation that repeats a systematic one) are dropped
     return L
 
 
@@ -177,15 +350,30 @@ def _run(ctx, replay):
             ti = json.load(open(os.path.join(ctx.aux, 'c15_tie.json')))
             tie.append('extractor aborted (broken tie): %s:%s: %s: %r' % (ti['file'], ti['line'], ti['why'], ti['text']))
             ok_build, blog = False, tie[0]
+        # the statements with which the lookup functions build their result, from the clang AST of the working tree
+        copy_js = None
+        t2 = time.time()
+        pc = subprocess.run([sys.executable, os.path.join(VERIF, 'tools', 'c15_copy.py'), ctx.sc.path('b'), os.path.join(l4.GEN_DIR, 'C15Copy.lean'), '--json', os.path.join(ctx.aux, 'c15_copy.json')],
+                            capture_output=True, text=True, env=dict(os.environ, VERIF_REPO=REPO))
+        ctx.tick('extract_copy', t2)
+        if pc.returncode == 3: tie.append('tools/c15_copy.py does not understand the lookup / free functions any more (broken tie): ' + pc.stderr.strip()[-500:])
+        elif pc.returncode != 0: raise BuildError('tools/c15_copy.py crashed: ' + pc.stderr[-2000:])
+        else: copy_js = json.load(open(os.path.join(ctx.aux, 'c15_copy.json')))
+        if rc == 3 or pc.returncode == 3: ok_build, blog = False, tie[0]
         else:
             ok_build, blog = l4.lake_build(ctx, [MODULE])
         ok_exe, elog = l4.lake_build(ctx, ['cat-model'])
-    if rc != 3 and not ok_build:
+    if rc != 3 and pc.returncode != 3 and not ok_build:
         proof_broken = l4.failing_theorems(blog, PROPS) or ['(module %s does not build)' % MODULE]
         proof_log = l4.first_errors(blog)
+    bad_src = core.audit_sources([COPY_MODEL])
+    if bad_src: problems.append('forbidden construct in Lean sources: ' + '; '.join(bad_src[:5]))
+    if copy_js:
+        for what in copy_level(copy_js): problems.append(what)
     if not ok_exe: tie.append('model executable does not build: ' + l4.first_errors(elog))
     theorems, axioms, n_dis = l4.audit(ctx, MODULE, PROPS, NAMESPACE, ['C15.lean'], ok_build, problems)
-    cat_thms = ['XrlL4.Catalogue.' + n for n in ('byIndex_out_of_range', 'byIndex_in_range', 'byName_byIndex', 'byName_some', 'byName_none_iff', 'names_get', 'deep_copy_independent')] + ['XrlL4.C15.addressable']
+    cat_thms = ['XrlL4.Catalogue.' + n for n in ('byIndex_out_of_range', 'byIndex_in_range', 'byName_byIndex', 'byName_some', 'byName_none_iff', 'names_get', 'deep_copy_independent')] + ['XrlL4.C15.addressable'] + \
+               ['XrlL4.Copy.' + n for n in ('copy_frame', 'copy_fresh', 'free_releases', 'write_above', 'free_above', 'shared_member_breaks')]
     if ok_build:
         ax2, _ = l4.print_axioms(ctx, MODULE, cat_thms)
         for th in cat_thms:
@@ -196,7 +384,7 @@ def _run(ctx, replay):
     if ctx.tier == 'thorough' and ok_build: l4.leanchecker(ctx, MODULE, problems)
 
     # ---- entry-level re-check (names the offending entry when a `decide` fails) -----------------------------
-    viol = []; js = None
+    viol = []; js = None; cryst_stats = {}; daughter_rows = []; daughter_dis = []; gen_stats = {}
     if rc != 3:
         js = json.load(open(os.path.join(ctx.aux, 'c15.json')))
         js['line_energy'] = {}
@@ -204,13 +392,21 @@ def _run(ctx, replay):
             f = l.split(); js['line_energy']['%s %s' % (f[0], f[1])] = f[2]
         for th, key, what in entry_level(js):
             viol.append(dict(key=key, what=what, theorem=th, got=None, expected='clause of %s' % th))
+        # the compiled crystal table against the anchor file data/Crystals.dat, through a reader of its own
+        cbad, cryst_stats = crystals_vs_data_file(js, os.path.join(REPO, 'data', 'Crystals.dat'))
+        for th, key, what in cbad:
+            viol.append(dict(key=key, what=what, theorem=th, got=None, expected='the compiled crystal table holds what data/Crystals.dat says (6 decimals)'))
+        # "X-ray lines of the daughter element": Z_xray against the main decay mode
+        dbad, daughter_rows, daughter_dis = daughter_elements(js)
+        for th, key, what in dbad:
+            viol.append(dict(key=key, what=what, theorem=th, got=None, expected='Z_xray = Z + dZ(main decay mode): EC/beta+ -1, beta- +1, alpha -2, IT 0'))
         keyed = [v for v in viol if '\t' in v['key'] or v['key'].endswith('_list')]
         if keyed:      # what the library itself answers for the offending entry
             for v, a in zip(keyed, run_drv(drv, [v['key'] for v in keyed])): v['got'] = 'library answers: ' + a[:400]
     # ---- correspondence: model (over the extracted tables) vs the library ------------------------------------
     n_corr = 0; mism = []; samples = []; dist = {}; nontriv = set()
     if js and ok_exe:
-        lines = corpus() + gen_lines(ctx, js, ctx.tier == 'thorough')
+        lines = list(dict.fromkeys(corpus() + gen_lines(ctx, js, ctx.tier == 'thorough', gen_stats)))
         if replay: lines = [l.rstrip('\n') for l in open(replay) if l.strip() and not l.startswith('#')]
         t = time.time()
         # copy_* histories run in their own processes (chunks), lookups in one
@@ -229,6 +425,16 @@ def _run(ctx, replay):
             d['calls'] += 1; d['ok' if m.startswith('ok') else 'err'] += 1
             if m.startswith('ok'): nontriv.add(l if not cmd.startswith('copy_') else l)
             if c != m: mism.append((l, c, m))
+        # an unknown (or NULL) name must be an error in the model too: the model is the judge of the run, this pins it to the clause
+        cat_names = dict(mendel_z={x for _, x in js['mendel']}, nist_name={e['name'] for e in js['nist']}, nuclide_name={e['name'] for e in js['nuclides']},
+                         crystal_name={c['name'] for c in js['crystals']})
+        n_unknown = 0
+        for l, m in zip(lines, m_out):
+            cmd, _, arg = l.partition('\t')
+            if cmd in cat_names and arg not in cat_names[cmd]:
+                n_unknown += 1
+                if m != 'err': tie.append('the model answers %r for the unknown name in %r' % (m[:80], l))
+        gen_stats['unknown_or_null_name_lines'] = n_unknown
         if len(c_out) != len(lines) or len(m_out) != len(lines): tie.append('driver answered %d / model %d of %d lines' % (len(c_out), len(m_out), len(lines)))
         pick = sorted(ctx.rng.sample(range(len(lines)), min(6, len(lines))))
         samples = [dict(line=lines[i], impl=c_out[i][:200], model=m_out[i][:200]) for i in pick]
@@ -263,21 +469,40 @@ def _run(ctx, replay):
     cov = dict(obligations=max(len(theorems), 1), discharged=n_dis,
                checker_cmd='cd lean-l4 && lake build %s cat-model   (tables: tools/gen_c15.py; then `#print axioms` on each theorem)' % MODULE,
                trusted_base=l4.TRUSTED_BASE + ['harness/c15_drv.c and the ASan/UBSan/LSan run-time: observers of the correspondence run only',
-                                               'the lookup model of XrlL4/Catalogue.lean is tied to the C functions by the exhaustive correspondence run, not by translation'],
+                                               'the lookup model of XrlL4/Catalogue.lean is tied to the C functions by the exhaustive correspondence run, not by translation',
+                                               'tools/c15_copy.py (transliteration of assignment / xrl_strdup / malloc / memcpy / free statements from the clang JSON AST; any other statement on the success path becomes `other` and breaks the obligation) '
+                                               'and Copy.classify / Copy.copyRec of XrlL4/CopyModel.lean as the meaning of those statements'],
                theorems=[dict(name=t, axioms=axioms.get(t)) for t in theorems],
                traces_validated_against_impl=n_corr, correspondence_mismatches=len(mism),
                evaluations=n_corr + (sum(cnt.get(k, 0) for k in ('nist', 'nuclides', 'crystals', 'mendel', 'atoms')) if js else 0),
                distinct_nontrivial=len(nontriv), exhaustive=True,
-               rule='exhaustive part: every symbol and Z in [-3, MENDEL_MAX+3]; every catalogue name; every index in [-3, n+3], INT_MIN/INT_MAX, every index macro value; the three list functions. '
-                    'Seeded part (VERIF_SEED through one PRNG): malformed names (case flips, padding, truncation, doubled, one character replaced, random strings) and deep-copy histories '
-                    '(3 copies + mutation of one + a fresh copy, freed in a permutation of 0123; all 24 permutations for some indices, all indices in the thorough tier) under ASan+UBSan+LSan. '
-                    'non-trivial = distinct protocol lines on which the model expects a successful lookup / an independent copy (errors are the trivial ones)',
+               rule='exhaustive part (both tiers, independent of the seed): every symbol and Z in [-3, MENDEL_MAX+3]; every catalogue name; every index in [-3, n+3], INT_MIN/INT_MAX, every index macro value; '
+                    'the three list functions; unknown names SYSTEMATICALLY: for every name of every catalogue and every Mendeleev symbol the name without its last / first character, with x / space appended, '
+                    'with a leading space, with the first, middle and last character replaced (by x and by the next character code), swapcase, lower, upper, doubled, plus the empty string and the NULL pointer '
+                    '(%s lines that are not a catalogue name: mendel_z %s, nist %s, nuclide %s, crystal %s; each must be an error with a message, in the library and in the model); '
+                    'deep-copy histories for EVERY index of every catalogue (and -1, n) x all 24 orders of freeing: nist %s, nuclide %s, crystal %s lines '
+                    '(3 copies by index / by name / by index or MakeCopy, every field of one overwritten, a fresh copy compared field by field with the siblings, freed in the given order) under ASan+UBSan+LSan. '
+                    'Seeded part (VERIF_SEED through one PRNG): %d random name mutations / random strings per catalogue. '
+                    'non-trivial = distinct protocol lines on which the model expects a successful lookup / an independent copy (errors are the trivial ones)' % (
+                        gen_stats.get('unknown_or_null_name_lines'), gen_stats.get('unknown_mendel_z'), gen_stats.get('unknown_nist_name'), gen_stats.get('unknown_nuclide_name'), gen_stats.get('unknown_crystal_name'),
+                        gen_stats.get('copy_nist'), gen_stats.get('copy_nuclide'), gen_stats.get('copy_crystal'), 400 if ctx.tier == 'thorough' else 60),
+               line_kinds=gen_stats, crystal_file_check=cryst_stats, daughter_element_table=daughter_rows, daughter_element_disagreements=daughter_dis,
+               daughter_element_source='main decay mode per nuclide name from standard nuclear data (hard-coded in props/c15.py MAIN_DECAY): EC/beta+ -> Z-1, beta- -> Z+1, alpha -> Z-2, IT -> Z; a name not tabulated: |Z_xray - Z| <= 2',
+               deep_copy_clause='NIST compounds and radionuclides: pointer-level theorem catalogue_copies_independent (XrlL4/CopyModel.lean: heap of separate cells in which a shared member CAN be expressed - shared_member_breaks) over the '
+                                'member-by-member classification of the statements of the four lookup and two Free functions, transliterated from the clang AST of the working tree on every run (tools/c15_copy.py -> Gen/C15Copy.lean; '
+                                'nist_lookups_copy_every_member / nuclide_lookups_copy_every_member are decided by the kernel: a member that is pointer-assigned instead of copied classifies as `shared` and breaks them); '
+                                'in addition the exhaustive mutate-and-free histories above (every index x 24 release orders).  Crystals: pointer-level model and refinement proof are property C14 (Crystal_MakeCopy); here the search only. '
+                                'The older deep_copy_independent of XrlL4/Catalogue.lean holds by construction of its one-cell model and is kept for the lookup theorems only',
+               copy_statements=({k: dict(struct=v['struct'], members=v['fields'], byIndex=v['byIndex'], byName=v['byName'], free=v['free']) for k, v in copy_js.items()} if copy_js else None),
                samples=samples, distribution=dist, counts=cnt, entry_level_violations=len([v for v in viol if v['theorem'] != 'lookups_agree_* / deep_copy_independent']),
                known_findings_reproduced=len(kn), new_violations=len(new), broken=dict(proof=proof_broken, tie=tie, other=problems),
                nist_sum_tolerance='|sum of mass fractions - 1| <= 2e-6 holds for all 180 shipped entries (worst: Glass, Pyrex 1.000002); stated as nistTol in Props/C15.lean')
     core.write_evidence(ctx, 'proof', cov, len(new) + (1 if broken and not new else 0),
                         ['line energies enter the kernel as floor(E[keV]*1e9) of what LineEnergy() of the freshly built library returns (positivity is all the statement needs)',
-                         'crystal and Mendeleev tables are read from the xrayglob_inline.c that pr_data, rebuilt from the working tree, writes from data/Crystals.dat and src/xrayglob.c (that is the text compiled into the library)',
+                         'the Mendeleev table is read from the xrayglob_inline.c that pr_data, rebuilt from the working tree, writes from src/xrayglob.c (that is the text compiled into the library)',
+                         'the crystal table is read from the same file and compared with data/Crystals.dat by a parser of its own (props/c15.py parse_crystals_dat): names, atom counts, Z, and every value to the 6 decimals pr_data prints '
+                         '(float32 equality does not hold for the few file values with more than 6 decimals; they are listed in coverage.crystal_file_check.float32_unequal)',
+                         'Z_xray is checked against a hard-coded table of main decay modes (10 nuclides), not against a nuclear data file',
                          'allocation failure paths of the lookup functions are not exercised'])
     log('%s %s: exit %d  (%.1fs; theorems %d/%d; corr %d lines, %d mismatches; entry-level %d; %d known, %d new)' % (
         ID, ctx.tier, exit_code, time.time() - ctx.t0, n_dis, len(theorems), n_corr, len(mism), len(viol) - len(mism[:200]), len(kn), len(new)))
